@@ -29,7 +29,12 @@
 (*    connection-up (in arrival order) with the later ones;                  *)
 (*  - a barrier reply with an xid the controller did not use, while its own  *)
 (*    barrier is pending, may be ignored or make the controller drop the     *)
-(*    (half-open) connection.                                                *)
+(*    (half-open) connection;                                                *)
+(*  - a failed write may make the controller give the connection up at once   *)
+(*    or be ignored until the read side reports the loss.                     *)
+(* NOT left open: exactly-once of up/down, order and completeness of the      *)
+(* port-status delivered after connection-up, never an event or a registry    *)
+(* entry for a connection the controller has given up, the registry itself.   *)
 EXTENDS Naturals, Sequences, FiniteSets, TLC, Json
 
 CONSTANTS NC,       \* connections 1..NC
@@ -56,7 +61,8 @@ VARIABLES ph,     \* [Conns -> {"none","open","closed"}] socket in the loop
           last,   \* observation of the last action
           hist    \* all observations (export only)
 vars  == <<ph, lost, feat, ann, down, defer, reg, ups, last, hist>>
-view  == <<ph, lost, feat, ann, down, defer, reg, ups, last>>
+\* VIEW of all model-checking and export runs: `last`/`hist` are observations,
+\* no invariant mentions them and the action properties read only last'
 viewE == <<ph, lost, feat, ann, down, defer, reg, ups>>
 
 Live(c)   == ph[c] = "open" /\ ~lost[c]
